@@ -49,6 +49,14 @@ CHECKS = {
              "XML; the projection of everything the real parser accepts is sent back to TLC, which evaluates the declarative predicate "
              "Conformant on it (one-directional: rejecting is always fine).",
         design="6/C13", technique=CODEC_TECH + "; TLC judges the real parser's outputs (CodecJudge.tla)"),
+    "C17": dict(
+        text="WaitForEvent.tla models the wait on a discrete virtual clock (arrivals on the half grid, timers on the grid, the callback "
+             "synchronous inside message processing, the waiter resuming one loop iteration later); TLC checks Outcome (first match or timeout "
+             "at its instant, never both, never neither), PollSchedule, NoPollAfterDone, CallbackRemoved for every schedule of <= 3 arrivals x "
+             "timeout x polling, and that last-match-wins violates Outcome. The real coroutine runs under a virtual-clock loop for the same "
+             "schedule space x six condition/event kinds, alone, beside an independent second wait and beside an identical overlapping wait; "
+             "outcome, completion instant, polling instants and callback registration are validated by TraceWaitForEvent.tla.",
+        design="6/C17", technique="TLA+ spec (WaitForEvent.tla) + TLC exhaustive model checking; TLC trace validation of real waitforevent runs under virtual time"),
     "C18": dict(
         text="Transport.tla models the three connection handlers at await granularity on asyncio's FIFO loop (Tick = one iteration); "
              "TLC explores every interleaving of accepts, inputs (messages, junk, partial element, EOF, reset, raising device), device "
